@@ -820,8 +820,9 @@ func (l *lexer) scanEscape() rune {
 		ch = l.next()
 	}
 
-	if ch == stopTok {
-		// Reset the string.
+	if ch == stopTok && l.hasError() {
+		// Reset the string. (Not when ch is just the end of the input
+		// following a complete escape: the text scanned so far is the token.)
 		l.resetStrBuf()
 	}
 
